@@ -39,7 +39,8 @@ R = None  # current recorder
 
 
 class Rec(object):
-    __slots__ = ("log", "style", "aio", "mode", "closed", "native", "loop_errors", "flags_outer", "flags_watch", "const_flags", "iters", "errs", "xv")
+    __slots__ = ("log", "style", "aio", "mode", "closed", "native", "loop_errors", "flags_outer", "flags_watch", "const_flags", "iters", "errs", "xv",
+                 "pause", "log2", "out2", "flags_watch2", "watch2_calls")
 
     def __init__(self, style, aio, mode, xv=0):
         self.xv = xv  # 1: every constant and every task return value is an Exception INSTANCE (an ordinary value)
@@ -52,6 +53,11 @@ class Rec(object):
         self.loop_errors = []
         self.flags_outer = []
         self.flags_watch = []
+        self.pause = False  # second phase: the first bodies suspend once (await asyncio.sleep(0)) so the call is really in flight
+        self.log2 = None  # body log of the second `await fn.asyncio(code)` in the same driver coroutine
+        self.out2 = None
+        self.flags_watch2 = []  # samples of the watcher created AFTER the first call completed
+        self.watch2_calls = []  # results of that watcher's own plain synchronous @asynq calls
         self.const_flags = []
         self.iters = 0
         self.errs = []
@@ -59,6 +65,7 @@ class Rec(object):
 
 class _NullRec(object):
     closed = True
+    pause = False
     style = 0
     aio = 0
     xv = 0
@@ -197,6 +204,8 @@ def _gtask(tc):
     log = r.log
     tid = tc.tid
     log.append(("s", tid, is_asyncio_mode()))
+    if r.pause and tid <= 1:
+        yield asyncio.sleep(0)  # harness device (second phase, asyncio only): a real suspension point, not logged
     rec = []
     try:
         yield from _gblock(r, tc, tc.stmts, rec)
@@ -328,6 +337,8 @@ async def _ntask(tc):
     tid = tc.tid
     r.native.add(tid)
     log.append(("s", tid, is_asyncio_mode()))
+    if r.pause and tid <= 1:
+        await asyncio.sleep(0)
     rec = []
     try:
         await _nblock(r, tc, tc.stmts, rec)
@@ -398,6 +409,12 @@ def tx_px(tc):
 @async_proxy()
 def k_px(v):
     return ConstFuture(v)
+
+
+@_asynq_deco()
+def w_probe(n):
+    v = yield ConstFuture(("w", n))
+    return v
 
 
 class _ViaAsyncCall(object):
@@ -486,17 +503,38 @@ def get_loop():
     return _LOOP
 
 
-async def _driver(r, fn, code, flags):
+async def _await_outcome(fn, code):
+    try:
+        return ("ok", await fn.asyncio(code))
+    except BaseException as e:
+        if isinstance(e, (KeyboardInterrupt, SystemExit, MemoryError, asyncio.CancelledError)):
+            raise
+        return ("err", e)
+
+
+async def _driver(r, fn, code, flags, phase2, wdone):
     # the coroutine under test is awaited directly (same context), so a leaked mode flag is visible here
     flags.append(is_asyncio_mode())
     try:
-        out = ("ok", await fn.asyncio(code))
-    except BaseException as e:
-        if isinstance(e, (KeyboardInterrupt, SystemExit, MemoryError, asyncio.CancelledError)):
+        out = await _await_outcome(fn, code)
+    finally:
+        flags.append(is_asyncio_mode())
+    if phase2:
+        # second phase, same coroutine, same context: an unrelated task is created NOW (its context is a copy of this
+        # one as the first call left it), then the same program is awaited again and really suspends at least once
+        wdone[0] = True
+        r.log, r.log2 = [], r.log  # r.log2 = first log for now; swapped back below
+        wd2 = [False]
+        w2 = asyncio.ensure_future(_watch2(r.flags_watch2, r.watch2_calls, wd2))
+        r.pause = True
+        try:
+            r.out2 = await _await_outcome(fn, code)
+        finally:
+            r.pause = False
             flags.append(is_asyncio_mode())
-            raise
-        out = ("err", e)
-    flags.append(is_asyncio_mode())
+            wd2[0] = True
+            r.log, r.log2 = r.log2, r.log
+        await w2
     return out
 
 
@@ -508,7 +546,26 @@ async def _watch(flags, done):
     flags.append(is_asyncio_mode())
 
 
-def run_aio(prog, style, aio, xv=0, max_iters=None):
+async def _watch2(flags, calls, done):
+    # unrelated coroutine created after a first .asyncio() call completed in the creating coroutine: it never enters
+    # asyncio mode, so the flag must read False and a plain synchronous call of an @asynq() function must work
+    n = 0
+    while not done[0]:
+        flags.append(is_asyncio_mode())
+        if n < 2:
+            try:
+                v = w_probe(n)
+                calls.append("ok" if v == ("w", n) else ("value", repr(v)))
+            except BaseException as e:
+                if isinstance(e, (KeyboardInterrupt, SystemExit, MemoryError, asyncio.CancelledError)):
+                    raise
+                calls.append(tok(e))
+        n += 1
+        await asyncio.sleep(0)
+    flags.append(is_asyncio_mode())
+
+
+def run_aio(prog, style, aio, xv=0, phase2=False, max_iters=None):
     """`await fn.asyncio(code)` on the worker's event loop, one loop iteration at a time (bounded).
     Returns (recorder, outcome, problems) where problems lists loop-level anomalies (sig, msg)."""
     global R
@@ -518,6 +575,8 @@ def run_aio(prog, style, aio, xv=0, max_iters=None):
     problems = []
     if max_iters is None:
         max_iters = 64 + 16 * prog.nstmts + 16 * prog.ntasks
+        if phase2:
+            max_iters = 2 * max_iters + 16
     out = None
     try:
         r.flags_outer.append(is_asyncio_mode())
@@ -525,7 +584,7 @@ def run_aio(prog, style, aio, xv=0, max_iters=None):
         wflags = r.flags_watch
         wdone = [False]
         watcher = loop.create_task(_watch(wflags, wdone))
-        main = loop.create_task(_driver(r, _route(r, prog.root), prog.root, flags))
+        main = loop.create_task(_driver(r, _route(r, prog.root), prog.root, flags, phase2, wdone))
         n = 0
         stop = loop.stop
         between = False
